@@ -15,6 +15,7 @@ from the annotation when there is one, else from the package line with `unescape
 (`unescapePath_escapePath`, `header_recovers_python_module`, `header_determines_python_module`); all of this
 for paths without back-quotes (counterexample below).
 -/
+import StubGen.Proofs.PathConv
 import StubGen.Proofs.Files
 
 namespace StubGen.C10
@@ -51,16 +52,16 @@ theorem escapePath_segments (p : String) :
     otherwise.  In both cases `pkg` is recoverable from the header: from the annotation if there is one, else
     from the package line by `unescapePath` (`header_recovers_python_module`). -/
 theorem header_announces_python_module (env : Env) (pkg : String) :
-    (convertName pkg env.safe = pkg → packageHeader env pkg = "package " ++ escapePath pkg ++ "\n")
-    ∧ (convertName pkg env.safe ≠ pkg →
+    (convertPath pkg env.safe = pkg → packageHeader env pkg = "package " ++ escapePath pkg ++ "\n")
+    ∧ (convertPath pkg env.safe ≠ pkg →
         packageHeader env pkg
-          = "@PythonModule(\"" ++ pkg ++ "\")\npackage " ++ escapePath (convertName pkg env.safe) ++ "\n") := by
+          = "@PythonModule(\"" ++ pkg ++ "\")\npackage " ++ escapePath (convertPath pkg env.safe) ++ "\n") := by
   unfold packageHeader
   constructor
   · intro h
     simp [h]
   · intro h
-    have h' : ¬ pkg = convertName pkg env.safe := fun e => h e.symm
+    have h' : ¬ pkg = convertPath pkg env.safe := fun e => h e.symm
     simp only [bne_iff_ne, ne_eq, h', not_false_eq_true, if_true, String.append_assoc]
     rw [← String.append_assoc (s₁ := "\")\n") (s₂ := "package ")]
     rfl
@@ -71,11 +72,11 @@ theorem header_announces_python_module (env : Env) (pkg : String) :
     (b) no annotation: the package line is `escapePath pkg`, and `unescapePath` of it is `pkg`;
     (c) annotation: it contains `pkg` verbatim. -/
 theorem header_recovers_python_module (env : Env) (pkg : String) :
-    (convertName pkg env.safe = pkg → (∀ s ∈ splitDot pkg, s ∉ Generated.keywords) →
+    (convertPath pkg env.safe = pkg → (∀ s ∈ splitDot pkg, s ∉ Generated.keywords) →
         packageHeader env pkg = "package " ++ pkg ++ "\n")
-    ∧ (convertName pkg env.safe = pkg → '`' ∉ pkg.toList →
+    ∧ (convertPath pkg env.safe = pkg → '`' ∉ pkg.toList →
         ∃ line, packageHeader env pkg = "package " ++ line ++ "\n" ∧ unescapePath line = pkg)
-    ∧ (convertName pkg env.safe ≠ pkg →
+    ∧ (convertPath pkg env.safe ≠ pkg →
         ∃ line, packageHeader env pkg = "@PythonModule(\"" ++ pkg ++ "\")\npackage " ++ line ++ "\n") := by
   refine ⟨fun h hk => ?_, fun h hb => ?_, fun h => ?_⟩
   · rw [(header_announces_python_module env pkg).1 h, escapePath_of_no_keyword pkg hk]
@@ -86,7 +87,7 @@ theorem header_recovers_python_module (env : Env) (pkg : String) :
 theorem header_without_convention (env : Env) (pkg : String) (h : env.safe = false) :
     packageHeader env pkg = "package " ++ escapePath pkg ++ "\n" := by
   apply (header_announces_python_module env pkg).1
-  simp [convertName, h]
+  rw [h]; exact pc_convertPath_off pkg
 
 /-- The announced path is recoverable: two stub texts that start with the headers for `p₁` and `p₂` (paths
     without `"`, line breaks and back-quotes) announce the same Python module path. -/
@@ -376,7 +377,7 @@ example :
         ["pkg._colors.Color"] []).toOption.map
       fun ops => (ops.map fun o => (o.path, o.mode), applyWrites [] ops))
     = some ([("pkg/_colors/colors.sdsstub", .write), ("pkg/_colors/colors.sdsstub", .write)],
-            [("pkg/_colors/colors.sdsstub", "@PythonModule(\"pkg._colors\")\npackage pkg.Colors\n\nclass Color\n")]) := by
+            [("pkg/_colors/colors.sdsstub", "@PythonModule(\"pkg._colors\")\npackage pkg.colors\n\nclass Color\n")]) := by
   decide +kernel
 
 /-- NO new collision between placeholders: the foreign modules `lib._x` and `lib.x` have the same base name
@@ -486,7 +487,7 @@ example : (createOutsidePackageClass true "np.internal.Array" [] []).toOption.ma
 example : (createOutsidePackageClass false "lib._impl.Thing" [] []).toOption.map (fun r => (r.1.path, r.1.mode, r.1.text, r.2))
     = some ("lib/_impl/impl.sdsstub", .write, "package lib._impl\n\nclass Thing\n", ["lib/_impl"]) := by decide +kernel
 example : (createOutsidePackageClass true "lib._impl.Thing" [] []).toOption.map (fun r => (r.1.path, r.1.mode, r.1.text, r.2))
-    = some ("lib/_impl/impl.sdsstub", .write, "@PythonModule(\"lib._impl\")\npackage lib.Impl\n\nclass Thing\n", ["lib/_impl"]) := by
+    = some ("lib/_impl/impl.sdsstub", .write, "@PythonModule(\"lib._impl\")\npackage lib.impl\n\nclass Thing\n", ["lib/_impl"]) := by
   decide +kernel
 /-- only LEADING underscores go; a module name of underscores only leaves the bare suffix -/
 example : ((createOutsidePackageClass false "lib.__impl__.Thing" [] []).toOption.map (·.1.path),
